@@ -744,6 +744,8 @@ def run(check, mirror, tier):
         if N > 4 or k5 == 4:
             add("name_token/item/%s" % CN[k5], False, (0, 0, 0, k5), reach=(["reach:matched a proper prefix"] if k5 in (1,) else []), first=["i", "t", "e", "m"])
     run_parallel(check, jobs)
+    # which names the lexer sees while a context entry's value is read (decided by C13's parser family; name resolution is this property's statement)
+    run_companion(check, mirror, tier, "C13", ["parser_scope/context"])
 
 
 KNOWN_PRED = {}
